@@ -293,7 +293,7 @@ func TestVReplay(t *testing.T) {
 	switch {
 	case strings.Contains(o, "VASSERT-FAIL"):
 		res.Kind, res.Confirmed = "assert", true
-	case strings.Contains(o, "VASSUME-FALSE") || strings.Contains(o, "VTAPE-"):
+	case strings.Contains(o, "VASSUME-FALSE") || strings.Contains(o, "VTAPE-") || strings.Contains(o, "VLEMMA-FAIL"):
 		res.Kind = "diverged"
 	case hung || strings.Contains(o, "test timed out") || strings.Contains(o, "out of memory") || strings.Contains(o, "cannot allocate memory"):
 		res.Kind, res.Confirmed = "hang", true
